@@ -44,6 +44,36 @@ type TrackLayout struct {
 	UniformStsz bool        `json:"uniform_stsz"`   // only honoured when all sizes are equal (and > 0)
 	NoMerge     bool        `json:"no_merge"`       // one stts/ctts/stsc entry per sample/sample/chunk instead of run-length compression
 	Elst        []ElstEntry `json:"elst,omitempty"` // nil = no edts
+	// zero-count entries (sample_count = 0) inserted into the run-length tables; they cover no sample
+	SttsZero []ZeroRun `json:"stts_zero,omitempty"`
+	CttsZero []ZeroRun `json:"ctts_zero,omitempty"` // ignored without ctts
+}
+
+// ZeroRun is a table entry (sample_count=0, Value) written before the At-th (0-based) entry of the
+// run-length table the writer would emit otherwise; At >= number of entries: after the last one.
+// Several ZeroRuns with the same At are written in slice order.
+type ZeroRun struct {
+	At    int    `json:"at"`
+	Value uint32 `json:"value"`
+}
+
+// InsertZeroRuns returns runs with the zero-count entries of zr inserted.
+func InsertZeroRuns(runs []Run, zr []ZeroRun) []Run {
+	if len(zr) == 0 {
+		return runs
+	}
+	out := make([]Run, 0, len(runs)+len(zr))
+	for i := 0; i <= len(runs); i++ {
+		for _, z := range zr {
+			if z.At == i || (i == len(runs) && z.At > i) {
+				out = append(out, Run{0, z.Value})
+			}
+		}
+		if i < len(runs) {
+			out = append(out, runs[i])
+		}
+	}
+	return out
 }
 
 // ProgLayout says how the progressive file is laid out.
@@ -59,6 +89,9 @@ type ProgLayout struct {
 	// the library documents as allowed next to the real one), "free", "skip", "uuid", "zzzz"
 	Lead  []string `json:"lead,omitempty"`
 	Trail []string `json:"trail,omitempty"`
+	// UnorderedChunks lifts the "each track's chunks in increasing order" condition on ChunkOrder: any
+	// permutation of all chunks (the chunk offsets of a track need not increase with the chunk number).
+	UnorderedChunks bool `json:"unordered_chunks,omitempty"`
 }
 
 // ExtraTop returns the bytes of the extra top-level boxes named in kinds.
@@ -194,8 +227,22 @@ func validate(tracks []Track, lay ProgLayout) error {
 		return fmt.Errorf("chunk order has %d entries, %d chunks", len(lay.ChunkOrder), total)
 	}
 	next := make([]int, len(tracks))
+	seen := make([][]bool, len(tracks))
 	for i, tc := range lay.ChunkOrder {
-		if tc[0] < 0 || tc[0] >= len(tracks) || tc[1] != next[tc[0]] {
+		if tc[0] < 0 || tc[0] >= len(tracks) {
+			return fmt.Errorf("chunk order entry %d = %v: no such track", i, tc)
+		}
+		if lay.UnorderedChunks {
+			if seen[tc[0]] == nil {
+				seen[tc[0]] = make([]bool, len(lay.Tracks[tc[0]].ChunkSizes))
+			}
+			if tc[1] < 0 || tc[1] >= len(seen[tc[0]]) || seen[tc[0]][tc[1]] {
+				return fmt.Errorf("chunk order entry %d = %v: no such chunk, or chunk listed twice", i, tc)
+			}
+			seen[tc[0]][tc[1]] = true
+			continue
+		}
+		if tc[1] != next[tc[0]] {
 			return fmt.Errorf("chunk order entry %d = %v: not the next chunk of a track", i, tc)
 		}
 		next[tc[0]]++
@@ -476,7 +523,7 @@ func buildStbl(tr Track, tl TrackLayout, tt *TrackTruth) []byte {
 		durs[i] = s.Dur
 		ctos[i] = uint32(s.Cto)
 	}
-	runs := RunLength(durs, tl.NoMerge)
+	runs := InsertZeroRuns(RunLength(durs, tl.NoMerge), tl.SttsZero)
 	b := &Buf{}
 	b.U32(uint32(len(runs)))
 	for _, r := range runs {
@@ -485,7 +532,7 @@ func buildStbl(tr Track, tl TrackLayout, tt *TrackTruth) []byte {
 	parts = append(parts, FullBox("stts", 0, 0, b.B))
 	// ctts
 	if tl.CttsVersion >= 0 {
-		runs = RunLength(ctos, tl.NoMerge)
+		runs = InsertZeroRuns(RunLength(ctos, tl.NoMerge), tl.CttsZero)
 		b = &Buf{}
 		b.U32(uint32(len(runs)))
 		for _, r := range runs {
